@@ -284,7 +284,9 @@ pub fn pipe_throttled(ctx: &RunCtx, p: usize) -> bool {
     let pd = &ctx.prog.pipes[p];
     let processed = pd.items.iter().filter(|it| ctx.recs[**it].end.load(ORD) != 0).count();
     let read = ctx.pipes[p].outputs.lock().unwrap().len();
-    processed.saturating_sub(read) >= pd.depth.min(5).max(1) || (processed.saturating_sub(read) >= 5)
+    let depth = ctx.pipes[p].cur_depth.load(ORD) as usize;   // the depth the consumer has set last
+    let _ = pd.depth;
+    processed.saturating_sub(read) >= depth.max(1)
 }
 
 fn threads_finished(ctx: &RunCtx, started: usize) -> bool { ctx.threads_done.load(Ordering::SeqCst) >= started }
@@ -336,7 +338,7 @@ pub fn run_program(prog: Program, opts: &Opts, plan: noise::Plan) -> RunResult {
             let uses = acts.iter().any(|a| match a {
                 TAct::Op(o) | TAct::Join(o) | TAct::DropHeld(o) => ctx.prog.ops[*o].obj == m,
                 TAct::ReleaseMortal | TAct::PanicRelease => true,
-                TAct::PipeCreate(p) | TAct::Consume(p, _) | TAct::DropStream(p) | TAct::StashStream(p) => ctx.prog.pipes[*p].obj == m,
+                TAct::PipeCreate(p) | TAct::Consume(p, _) | TAct::DropStream(p) | TAct::StashStream(p) | TAct::SetDepth(p, _) => ctx.prog.pipes[*p].obj == m,
                 _ => false });
             if uses { mortal_clones[t] = Some(Arc::clone(&owner)); }
         }
